@@ -502,7 +502,8 @@ fn run_inner(line: &str) -> String {
             use unicode_normalization::UnicodeNormalization;
             fmt_str(&parse_str(arg(1)).nfkc().collect::<String>())
         }
-        "csvrow" => crate::tools::csv_row(arg(1), &f[2..].join("|")),
+        "csvrow" => crate::tools::csv_row(arg(1), ""),
+        "csvfile" => crate::tools::csv_file(arg(1), arg(2)),
         _ => proto("unknown op"),
     }
 }
